@@ -225,6 +225,7 @@ class Verdicts:
     def __init__(self, prop):
         self.prop = prop
         self.kf = [f for f in load_known_findings().get("findings", []) if f["property"] == prop]
+        shutil.rmtree(os.path.join(REPLAYS, prop), ignore_errors=True)
         self.violations = []
         self.known_hits = {}
         self.notes = []
